@@ -24,13 +24,14 @@ ASSUMPTIONS = [
 ]
 N = {'quick': 600, 'thorough': 4000}
 SHAPES = ['direct', 'map_above', 'rev_slice', 'batch2', 'chain', 'items_below', 'items_map', 'concat_below', 'copied',
-          'copied_frozen', 'warn', 'list_zip_warn', 'cache_below']
+          'copied_frozen', 'warn', 'list_zip_warn', 'cache_below', 'zip_below']
 # incl. exceptions from the OSError family (a missing file is THE everyday failure of a loading function) and
 # NotImplementedError (which the library itself uses for "items() not defined")
 RAISED = ['FilterException', 'VErrA', 'VErrB', 'VErrC', 'ValueError', 'IndexError', 'VBase', 'FileNotFoundError',
-          'NotImplementedError']
+          'NotImplementedError', 'StopIteration']  # StopIteration: only under a catch set that covers it (PEP 479
+#                                                    turns an UNCAUGHT one inside a generator into RuntimeError)
 SPECS = [None, 'VErrA', ['VErrA', 'VErrC'], 'Exception', 'ValueError', 'LookupError', ['KeyError', 'VErrC'], [],
-         ['VBase', 'VErrA'], 'OSError']
+         ['VBase', 'VErrA'], 'OSError', 'StopIteration']
 
 
 def plan(tier):
@@ -67,6 +68,11 @@ def make(kind, n, fail, shape, spec):
         if kind != 'dict':
             return None
         node = {'op': 'map', 'fn': 2, 'in': {'op': 'items', 'in': node}}
+    elif shape == 'zip_below':
+        if kind != 'list':
+            return None
+        node = {'op': 'zip', 'how': 'method', 'ins': [node, {'op': 'list', 'id': 7, 'n': n, 'mode': 'pickle',
+                                                              'dup': False}]}
     elif shape == 'cache_below':
         node = {'op': 'cache', 'lazy': True, 'in': node}  # a memory cache between the failing stage and the catch
     out = {'op': 'catch', 'exc': spec, 'in': node}
@@ -165,7 +171,7 @@ def st_random(draw):
     node = base
     for _ in range(draw(st.integers(1, 2))):
         mm = draw(st.integers(2, 4))
-        node = {'op': 'boom', 'm': mm, 'r': draw(st.integers(0, mm - 1)), 'exc': draw(st.sampled_from(RAISED)),
+        node = {'op': 'boom', 'm': mm, 'r': draw(st.integers(0, mm - 1)), 'exc': draw(st.sampled_from(RAISED[:-1])),
                 'fn': draw(st.integers(0, 3)), 'in': node}
         if draw(st.booleans()):
             node = {'op': 'map', 'fn': draw(st.integers(0, 3)), 'in': node}
@@ -213,6 +219,8 @@ def run_shard(tier, idx, nshards, rec, known):
                                                       'fail': {str(p): 'VErrA' for p in subset}}, v.sig, v.detail)
                                     return [out]
                         for spec in SPECS:
+                            if 'StopIteration' in fail.values() and spec not in ('StopIteration', 'Exception'):
+                                continue
                             for shape in SHAPES:
                                 if 'IndexError' in fail.values() and shape == 'batch2':
                                     continue  # BatchDataset documents IndexError of its input as "end of data"
